@@ -7,13 +7,23 @@
 
 #[derive(Clone, Debug)]
 pub struct Tape {
-    data: Vec<u32>,
+    slots: Vec<Vec<u32>>,
+    cur: usize,
     pos: usize,
 }
 
 impl Tape {
+    /// A flat tape (one slot).
     pub fn new(data: Vec<u32>) -> Self {
-        Tape { data, pos: 0 }
+        Tape { slots: vec![data], cur: 0, pos: 0 }
+    }
+
+    /// A slotted tape: slot 0 is the header, every further slot describes one operation.
+    /// Shrinking removes whole slots (operations) or simplifies values inside a slot, so the
+    /// meaning of the remaining operations is preserved.
+    pub fn new_slots(slots: Vec<Vec<u32>>) -> Self {
+        let slots = if slots.is_empty() { vec![Vec::new()] } else { slots };
+        Tape { slots, cur: 0, pos: 0 }
     }
 
     pub fn from_bytes(bytes: &[u8]) -> Self {
@@ -28,21 +38,28 @@ impl Tape {
         Tape::new(data)
     }
 
-    pub fn data(&self) -> &[u32] {
-        &self.data
+    pub fn slots(&self) -> &Vec<Vec<u32>> {
+        &self.slots
     }
 
-    pub fn consumed(&self) -> usize {
-        self.pos
+    pub fn len(&self) -> usize {
+        self.slots.iter().map(|s| s.len()).sum()
     }
 
-    pub fn exhausted(&self) -> bool {
-        self.pos >= self.data.len()
+    /// Move to the next slot. Returns false when there is none (further reads yield 0).
+    pub fn next_slot(&mut self) -> bool {
+        self.cur += 1;
+        self.pos = 0;
+        self.cur < self.slots.len()
+    }
+
+    pub fn slots_left(&self) -> usize {
+        self.slots.len().saturating_sub(self.cur + 1)
     }
 
     #[inline]
     pub fn raw(&mut self) -> u32 {
-        let v = self.data.get(self.pos).copied().unwrap_or(0);
+        let v = self.slots.get(self.cur).and_then(|s| s.get(self.pos)).copied().unwrap_or(0);
         self.pos += 1;
         v
     }
